@@ -4,12 +4,15 @@ package p14
 
 import (
 	"fmt"
+	"runtime"
 	"strconv"
 	"strings"
+	"sync"
 	"time"
 
 	"github.com/btcsuite/btcd/blockchain"
 	"github.com/btcsuite/btcd/chaincfg/v2"
+	"github.com/btcsuite/btcd/wire/v2"
 )
 
 type P struct{}
@@ -96,9 +99,86 @@ func newParams(window, threshold uint32, deps []dep) *chaincfg.Params {
 
 func (P) Exec(line string) string {
 	f := strings.Fields(line)
-	if len(f) != 7 || f[0] != "C14" || f[1] != "q" {
+	if len(f) < 2 || f[0] != "C14" {
 		return "bad-op"
 	}
+	switch f[1] {
+	case "q":
+		if len(f) != 7 {
+			return "bad-op"
+		}
+		return execQ(f[2:])
+	case "par":
+		// independent chain instances run concurrently, one goroutine each, released together
+		// and staggered; every instance must answer exactly as it would alone.
+		if len(f) != 3 {
+			return "bad-op"
+		}
+		subs := strings.Split(f[2], "|")
+		outs := make([]string, len(subs))
+		var wg sync.WaitGroup
+		start := make(chan struct{})
+		for i, sub := range subs {
+			wg.Add(1)
+			go func(i int, sub string) {
+				defer wg.Done()
+				defer func() {
+					if r := recover(); r != nil {
+						outs[i] = "panic"
+					}
+				}()
+				<-start
+				for k := 0; k < i*3; k++ {
+					runtime.Gosched()
+				}
+				ff := strings.Split(sub, "/")
+				if len(ff) != 5 {
+					outs[i] = "bad-op"
+					return
+				}
+				outs[i] = execQ(ff)
+			}(i, sub)
+		}
+		close(start)
+		wg.Wait()
+		return strings.Join(outs, "|")
+	case "str":
+		return strings.ReplaceAll(blockchain.ThresholdState(byte(i64(f[2]))).String(), " ", "_")
+	case "eaa":
+		d := chaincfg.ConsensusDeployment{AlwaysActiveHeight: uint32(i64(f[2]))}
+		return strconv.FormatUint(uint64(d.EffectiveAlwaysActiveHeight()), 10)
+	case "clk":
+		// a starter/ender that was never synchronised with a clock
+		st := chaincfg.NewMedianTimeDeploymentStarter(mkTime(optTime(f[2])))
+		en := chaincfg.NewMedianTimeDeploymentEnder(mkTime(optTime(f[3])))
+		hdr := wire.BlockHeader{Timestamp: time.Unix(i64(f[4]), 0)}
+		a, aerr := st.HasStarted(&hdr)
+		b, berr := en.HasEnded(&hdr)
+		res := func(v bool, err error) string {
+			switch {
+			case err == chaincfg.ErrNoBlockClock:
+				return "noclock"
+			case err != nil:
+				return "err"
+			case v:
+				return "1"
+			}
+			return "0"
+		}
+		rt := func(t time.Time) string {
+			if t.IsZero() {
+				return "-"
+			}
+			return strconv.FormatInt(t.Unix(), 10)
+		}
+		return res(a, aerr) + "," + res(b, berr) + "," + rt(st.StartTime()) + "," + rt(en.EndTime())
+	}
+	return "bad-op"
+}
+
+// execQ runs one chain instance: f = window, threshold, deployments, tree, queries.
+func execQ(f []string) string {
+	f = append([]string{"C14", "q"}, f...)
 	window, threshold := uint32(i64(f[2])), uint32(i64(f[3]))
 	deps := parseDeps(f[4])
 	if len(deps) != chaincfg.DefinedDeployments {
@@ -181,6 +261,56 @@ func (P) Exec(line string) string {
 		case 'w':
 			st, err := c.WarningStateAt(int(node), uint32(arg))
 			out = append(out, stStr(st, err))
+		case 'm': // exported BlockChain.PastMedianTime (the BlockClock)
+			if node < 0 {
+				return "bad-op"
+			}
+			t, err := c.PastMedianTimeAt(int(node))
+			if err != nil {
+				out = append(out, "err")
+			} else {
+				out = append(out, strconv.FormatInt(t, 10))
+			}
+		case 'h': // DeploymentStarter.HasStarted / DeploymentEnder.HasEnded directly
+			if node < 0 || arg >= int64(len(deps)) {
+				return "bad-op"
+			}
+			a, aerr, b, berr := c.StarterEnderAt(int(node), uint32(arg))
+			ch := func(v bool, err error) string {
+				switch {
+				case err != nil:
+					return "e"
+				case v:
+					return "1"
+				}
+				return "0"
+			}
+			out = append(out, ch(a, aerr)+ch(b, berr))
+		case 'G', 'M': // exported CalcSequenceLock with tip n: block validation / mempool semantics
+			if node < 0 {
+				return "bad-op"
+			}
+			on, err := c.SequenceLocksExportedAt(int(node), kind == 'M')
+			switch {
+			case err != nil:
+				out = append(out, "err")
+			case on:
+				out = append(out, "1")
+			default:
+				out = append(out, "0")
+			}
+		case 'I': // initThresholdCaches with tip n; arg 1 = chain is current (warnings run)
+			if node < 0 {
+				return "bad-op"
+			}
+			w, err := c.InitThresholdCachesAt(int(node), arg == 1)
+			out = append(out, flagStr(w, err))
+		case 'W': // warnUnknownRuleActivations(n)
+			if node < 0 {
+				return "bad-op"
+			}
+			w, err := c.WarnUnknownRuleActivationsAt(int(node))
+			out = append(out, flagStr(w, err))
 		case 'g':
 			if node < 0 {
 				return "bad-op"
@@ -222,6 +352,16 @@ func (P) Exec(line string) string {
 		}
 	}
 	return strings.Join(out, ",")
+}
+
+func flagStr(w bool, err error) string {
+	switch {
+	case err != nil:
+		return "err"
+	case w:
+		return "warned"
+	}
+	return "quiet"
 }
 
 func stStr(st blockchain.ThresholdState, err error) string {
